@@ -11,7 +11,8 @@ VERIF = os.path.dirname(os.path.dirname(os.path.abspath(__file__)))
 LEAN = os.path.join(VERIF, 'lean')
 REPO = os.environ.get('VERIF_REPO', '/repo')
 DRIVER = os.path.join(LEAN, '.lake', 'build', 'bin', 'driver')
-EVIDENCE = os.path.join(VERIF, 'evidence')
+# (tools/seedtest.py redirects evidence of runs against patched trees so that committed evidence stays clean)
+EVIDENCE = os.environ.get('VERIF_EVIDENCE_DIR') or os.path.join(VERIF, 'evidence')
 REPLAYS = os.path.join(VERIF, 'replays')
 CORPUS = os.path.join(VERIF, 'corpus')
 GUARD = 'TRANSITIONS_VERIF'
@@ -203,17 +204,17 @@ def enc_items(items):
 def show_item(it):
     k = it[0]
     if k == 'call':
-        return 'call %s cb%d m%d t%d @s%d' % (SLOTS[it[1]], it[2], it[3], it[4], it[5])
+        return 'call %s cb%d m%d t%d @s%s' % (SLOTS[it[1]], it[2], it[3], it[4], it[5])
     if k == 'done':
         if it[2] == 0:
             return 'done cb%d -> %s' % (it[1], bool(it[3]))
-        return 'done cb%d raises %s(%d)' % (it[1], EXC_NAMES[it[3]], it[4])
+        return 'done cb%d raises %s(%d)' % (it[1], EXC_NAMES[min(it[3], 6)], it[4])
     if k == 'api':
         return 'api %s t%d m%d e%d' % (['trigger', 'may', 'dispatch', 'remove_model', 'add_model'][it[1]], it[2], it[3], it[4])
     if k == 'ret':
         return 'ret t%d %s' % (it[1], bool(it[2]))
     if k == 'raised':
-        return 'raised t%d %s(%d)' % (it[1], EXC_NAMES[it[2]], it[3])
+        return 'raised t%d %s(%d)' % (it[1], EXC_NAMES[min(it[2], 6)], it[3])
     return repr(it)
 
 
